@@ -416,3 +416,19 @@ Proof.
   rewrite <- Z.lxor_lor by exact H0.
   symmetry. apply Z.add_nocarry_lxor. exact H0.
 Qed.
+
+Lemma in_cty_nonneg : forall t z, std_cty t -> 0 <= z <= cmax t -> in_cty t z.
+Proof.
+  intros t z Hstd Hz. unfold in_cty. split; [|lia].
+  assert (cmin t <= 0); [|lia]. apply cmin_le_0. unfold std_cty, std_bits in Hstd. lia.
+Qed.
+
+Lemma in_cty_promote_nonneg : forall t z, std_cty t -> 0 <= z <= cmax t -> in_cty (promote t) z.
+Proof.
+  intros t z Hstd Hz. apply in_cty_nonneg; [apply promote_std; assumption|].
+  assert (H := cmax_promote t Hstd). lia.
+Qed.
+
+Lemma cmax_ge_127 : forall t, std_cty t -> 127 <= cmax t.
+Proof. intros t H. std_split t H; unfold cmax; cbn [csigned cbits]; pow_consts; lia. Qed.
+
